@@ -130,6 +130,20 @@ def check_name(name, acc, tokens=None, case=None):
     try:
         got = parse_single_name_into_parts(name)
         obs = as_dict(got) if isinstance(got, NameParts) else ("not NameParts", repr(got))
+        if isinstance(got, NameParts):
+            # the returned object is the caller's: editing it (as in-place middlewares do) must not show up in later calls
+            got.first.append("<edited>")
+            got.von.insert(0, "<edited>")
+            got.last.clear()
+            got.jr.append("<edited>")
+            again = parse_single_name_into_parts(name)
+            if as_dict(again) != obs:
+                acc.violation(
+                    {"oracle": "result_is_a_fresh_object"},
+                    {"case": case, "observed": as_dict(again), "expected": obs},
+                    size=len(name),
+                )
+                return
     except InvalidNameError:
         obs = "invalid"
     except Exception as e:
